@@ -592,8 +592,8 @@ Proof.
 Qed.
 
 (* what holds_fmt = true says about one format's observations *)
-Lemma holds_fmt_sound q fo full :
-  holds_fmt q fo = true -> fo_full fo = Ok full ->
+Lemma holds_fmt_sound strict q fo full :
+  holds_fmt strict q fo = true -> fo_full fo = Ok full ->
   let m := keep_mask (q_samples q) (g_samples full) in
   mask m (g_samples full) <> [] ->
   exists rd isamples irecs,
@@ -653,10 +653,17 @@ Lemma sel_pred_same c q : region_comparable c q ->
 Proof.
   unfold region_comparable, sel_pred. intros H [v r] Hin. cbn [fst].
   destruct (q_region q) as [[[ct a] b]|]; [|reflexivity].
-  destruct a as [a'|]; [|reflexivity].
+  destruct a as [a'|].
+  2:{ unfold in_region_vcf, in_region_pgen. destruct b; rewrite andb_true_r; reflexivity. }
   rewrite Forall_forall in H. unfold in_region_vcf, in_region_pgen.
   rewrite (H v) by (eapply in_combine_l; eauto).
-  replace (v_pos v + 1 - 1) with (v_pos v) by lia. reflexivity.
+  replace (v_pos v + 1 - 1) with (v_pos v) by lia.
+  destruct b as [b'|]; [|rewrite andb_true_r; reflexivity].
+  f_equal.
+  destruct (v_chrom v =? ct); cbn [andb]; [|reflexivity].
+  destruct (a' <=? v_pos v) eqn:E1; cbn [andb]; [|reflexivity].
+  destruct (v_pos v <=? b') eqn:E2; cbn [andb]; [|reflexivity].
+  apply Z.leb_le in E1, E2. apply Z.leb_le. lia.
 Qed.
 
 Lemma mask_In {A} m (l : list A) x : In x (mask m l) -> In x l.
